@@ -405,6 +405,7 @@ impl Sim {
                         }
                         (ids, vec![rec; n])
                     }
+                    _ if g::ROWS_SITES.is_empty() => return Ok(()),
                     _ => {
                         let site = *site as usize % g::ROWS_SITES.len();
                         let nrows = g::ROWS_SITES[site].2;
@@ -489,8 +490,14 @@ impl Sim {
             Op::Entry { slot, pick, steps } => {
                 let si = self.s(*slot);
                 let Some(id) = self.resolve(si, *pick) else { return Ok(()) };
-                let steps: Vec<(bool, u8, u64)> =
-                    steps.iter().map(|(a, c, v)| (*a, *c % g::NC as u8, zoo::norm_for(*c % g::NC as u8, *v))).collect();
+                let steps: Vec<(bool, u8, u64)> = if g::NC == 0 {
+                    Vec::new()
+                } else {
+                    {
+                    let nc = (g::NC as u8).max(1);
+                    steps.iter().map(|(a, c, v)| (*a, *c % nc, zoo::norm_for(*c % nc, *v))).collect()
+                    }
+                };
                 let mut recs = Vec::with_capacity(steps.len());
                 let w = self.slots[si].world.as_mut().unwrap();
                 let found = match sut(|| g::entry_steps(w, mk_id(id), &steps, &mut recs)) {
